@@ -33,6 +33,11 @@ func genC09(t *rapid.T) *Case {
 		}
 		p.Top, p.Core, p.Nested = strip(p.Top), strip(p.Core), strip(p.Nested)
 		// short pages with "unlikely" marked blocks: the second extraction pass is then the one that counts
+		if rapid.Bool().Draw(t, "hangul") {
+			p.Top = append(p.Top, wc{"hangul", 10})
+			p.Core = append(p.Core, wc{"hangul", 6})
+			p.LenMix = [3]int{10, 30, 60}
+		}
 		p.Top = append(p.Top, wc{"unlikely", 12})
 		p.Core = append(p.Core, wc{"unlikely", 10})
 		if rapid.Bool().Draw(t, "short") {
